@@ -20,7 +20,7 @@ MANIFEST = dict(
 EXPLANATION = "all constructor forms and read-back forms, symbolic coefficients (hence every zero pattern of the normal / direction)"
 
 
-def _plane_is(vc, label, Q, pp, n):
+def _plane_is(vc, label, Q, pp, n, orig=None):
     """Q (a Plane object) denotes the plane through pp with normal direction n"""
     g = C.G()
     ok = isinstance(Q, g.Plane)
@@ -31,6 +31,9 @@ def _plane_is(vc, label, Q, pp, n):
     vc.ensure("%s: stored normal has unit length" % label, SP.eq(SP.norm2(qn), 1))
     vc.ensure("%s: normal parallel to the given one" % label, SP.collinear(qn, n))
     vc.ensure("%s: its point lies in the given plane" % label, SP.eqz(SP.dot(SP.sub(qp, pp), n)))
+    if orig is not None:
+        out = vc.call(lambda: (Q == orig) and (orig == Q))
+        vc.ensure("%s == P (the library's own equality, both orders)" % label, out.returned and (F(out.value) if isinstance(out.value, SymBool) else bool(out.value)))
 
 
 def _witness_hook(vc):
@@ -90,7 +93,7 @@ def h_roundtrips(vc):
         o2 = vc.call(g.Plane, *gf)
         vc.ensure("Plane(*P.general_form()) does not raise", o2.returned)
         if o2.returned:
-            _plane_is(vc, "Plane(*P.general_form())", o2.value, pp, n)
+            _plane_is(vc, "Plane(*P.general_form())", o2.value, pp, n, P)
         else:
             vc.note(repr(o2.value))
     out = vc.call(P.point_normal)
@@ -101,7 +104,7 @@ def h_roundtrips(vc):
         o2 = vc.call(lambda: g.Plane(g.Point(p0), n0))
         vc.ensure("Plane(Point(p), n) does not raise", o2.returned)
         if o2.returned:
-            _plane_is(vc, "Plane(Point(p), n)", o2.value, pp, n)
+            _plane_is(vc, "Plane(Point(p), n)", o2.value, pp, n, P)
     out = vc.call(lambda: -P)
     vc.ensure("-P does not raise", out.returned)
     if out.returned:
@@ -134,7 +137,7 @@ def h_parametric(vc):
     o2 = vc.call(lambda: g.Plane(g.Point(u), v, w))
     vc.ensure("Plane(Point(u), v, w) does not raise", o2.returned)
     if o2.returned:
-        _plane_is(vc, "Plane(Point(u), v, w)", o2.value, pp, n)
+        _plane_is(vc, "Plane(Point(u), v, w)", o2.value, pp, n, P)
     else:
         vc.note(repr(o2.value))
     vc.ensure("frame: P unchanged", vc.snapshot(P) == before)
@@ -194,7 +197,9 @@ def h_line_forms(vc):
 
 
 def groups(tier):
-    stubs = [(C.T_SOLVE, C.x_solve), (C.T_NORMALIZED, C.x_normalized), (C.T_PAR, C.x_parallel), (C.T_ORT, C.x_orthogonal), (C.T_VEQ, C.x_vector_eq), (C.T_PEQ, C.x_point_eq)]
+    C.remember_originals()
+    stubs = [(C.T_SOLVE, C.x_solve), (C.T_NORMALIZED, C.x_normalized), (C.T_PAR, C.x_parallel), (C.T_ORT, C.x_orthogonal), (C.T_VEQ, C.x_vector_eq), (C.T_PEQ, C.x_point_eq),
+             (C.T_PLANE_IN, C.x_plane_contains_point)]
     mk = lambda name, h, targets, hits=(): Group(name, h, targets, stubs=stubs, world="COORD", timeout_s=600, prove_ms=30000, expect_hits=list(hits))
     return [
         mk("Plane(a, b, c, d)", h_general_form, [PL + "__init__", PL + "_init_gf"], ["solve", "Vector.normalized"]),
